@@ -92,6 +92,9 @@ def _check(ctx, S, orient, use_stub):
 @harness("C13.chain")
 def chain(ctx, p):
     S, nl, el, c = nets.build_H(ctx, _shape(p["shape"]), cls=xgi.SimplicialComplex)
+    if p.get("one_label_order"):
+        # the largest complex: one label order (n0 < n1 < ...), all orientation bits symbolic
+        ctx.assume(*[nl[i] < nl[i + 1] for i in range(len(nl) - 1)])
     orient = {}
     for j, e in enumerate(el):
         orient[e] = ctx.int(f"o{j}", 0, 1)
@@ -166,9 +169,11 @@ def spec(tier, seed):
         shp = [s for s in shapes.shapes_S_upto(4, (0,)) if s[1] > 0]
         poolsh = [s for s in shapes.shapes_S_upto(3, (0,)) if s[1] > 0]
     else:
-        shp = [s for s in shapes.shapes_S_upto(4, (0, 1)) if s[1] > 0] + [full_simplex(5)]
+        shp = [s for s in shapes.shapes_S_upto(4, (0, 1)) if s[1] > 0]
         poolsh = [s for s in shapes.shapes_S_upto(4, (0,)) if s[1] > 0]
     units = [("C13.chain", {"shape": s}) for s in shp]
+    if tier != "quick":
+        units.append(("C13.chain", {"shape": full_simplex(5), "one_label_order": True}))
     for s in shp:
         if 4 <= s[1] <= (7 if tier == "quick" else 9) and max(len(e) for e in s[2]) >= 3:
             for vt in ("bool", "np.bool_", "np.int64"):
@@ -178,9 +183,9 @@ def spec(tier, seed):
         units.append(("C13.pool", {"shape": s, "orient": True, "strids": True}))
     return {
         "units": units,
-        "caps": {"paths": 200000, "wall": 1500},
+        "caps": {"paths": 200000, "wall": 1500, "path_timeout": 1200},
         "level": "model_checking",
-        "bounds": {"complexes": f"{len(shp)} downward-closed complexes on <= 4 vertices" + (" + the full 4-simplex on 5 vertices" if tier != "quick" else ""),
+        "bounds": {"complexes": f"{len(shp)} downward-closed complexes on <= 4 vertices" + (" + the full 4-simplex on 5 vertices (30 symbolic orientation bits, one label order)" if tier != "quick" else ""),
                    "orientations": "one solver bit per simplex (all 2^m assignments decided symbolically)",
                    "labels": "unbounded integer vertex labels (every label order through the reference sort), symbolic simplex ids; label pool " + repr(POOL) + " with every injective assignment on the smaller complexes",
                    "queries": "one per matrix entry"},
